@@ -108,6 +108,20 @@ def _cds_events(args):
             tsel = tables[tb] if rnd.random() < 0.5 else int(tables[tb])
             trs.append([tr, tb, strict, E.outcome(lambda tr=tr, tsel=tsel, strict=strict: list(str(cds.translate(
                 truncate_at_in_frame_stop=tr, translation_table=tsel, strict=strict))))])
+        # the same translations asked of a TRANSCRIPT whose exons are the CDS blocks (get_protein_sequence hands its
+        # arguments on to the coding sequence)
+        if not overl:
+            try:
+                from bcverif.props.c06 import mk_tx
+
+                txp = mk_tx([list(b) for b in blocks], st, [list(b) for b in blocks], root, frames=list(frames))
+            except Exception:
+                txp = None
+            if txp is not None:
+                for (tr, tb) in [(False, 11), (True, 1), (rnd.random() < 0.5, rnd.choice([0, 1, 11]))]:
+                    tsel = tables[tb] if rnd.random() < 0.5 else int(tables[tb])
+                    trs.append([tr, tb, True, E.outcome(lambda tr=tr, tsel=tsel: list(str(txp.get_protein_sequence(
+                        truncate_at_in_frame_stop=tr, translation_table=tsel))))])
         flags = [E.outcome(lambda: cds.has_valid_stop), E.outcome(lambda: cds.has_in_frame_stop),
                  E.outcome(lambda: cds.has_canonical_start_codon)] + [
             E.outcome(lambda t=t: cds.has_start_codon_in_specific_translation_table(tables[t])) for t in (0, 1, 11)]
